@@ -182,6 +182,12 @@ func cmdCheck(w *World, args []string, tier string, verbose bool) int {
 
 	// report
 	replayDir := filepath.Join(verifDir, "replays")
+	evidenceDir := filepath.Join(verifDir, "evidence")
+	if repoDir != "/repo" {
+		// runs against a scratch copy (mutation tests) must not overwrite the evidence of /repo
+		replayDir = filepath.Join(os.TempDir(), "govc-alt", "replays")
+		evidenceDir = filepath.Join(os.TempDir(), "govc-alt", "evidence")
+	}
 	exit := 0
 	for _, o := range violations {
 		path := filepath.Join(replayDir, prop+"-"+sanitize(o.Name)+".json")
@@ -260,7 +266,7 @@ func cmdCheck(w *World, args []string, tier string, verbose bool) int {
 		"explanation":              "each obligation is a verification condition generated from the SSA of the real function in /repo under its contract; discharged = solver answered unsat for the negated goal",
 	}
 	ev.Assumptions = propAssumptions(prop)
-	if err := writeJSON(filepath.Join(verifDir, "evidence", prop+".json"), ev); err != nil {
+	if err := writeJSON(filepath.Join(evidenceDir, prop+".json"), ev); err != nil {
 		fmt.Fprintln(os.Stderr, "evidence:", err)
 		return 2
 	}
